@@ -75,7 +75,9 @@ def eq_term(a, b, ignore_private=True):
         fa, fb = SymFloat.lift(a), SymFloat.lift(b)
         if fa is None or fb is None:
             return False
-        return z3.fpEQ(fa.t, fb.t)
+        if fa.t.eq(fb.t):
+            return True               # identical term: equal as a value (NaN counted equal to itself)
+        return z3.Or(z3.fpEQ(fa.t, fb.t), z3.And(z3.fpIsNaN(fa.t), z3.fpIsNaN(fb.t)))
     if isinstance(a, (SymInt, SymBool)) or isinstance(b, (SymInt, SymBool)):
         if isinstance(a, (SymBool, bool)) and isinstance(b, (SymBool, bool)):
             ta, tb = tobool(a), tobool(b)
